@@ -10,6 +10,9 @@ CONSTANTS
   EqualNames = FALSE
   SanitiseDots = TRUE
   Reserve = TRUE
+  AllowAbort = FALSE
+  ForeignRelease = FALSE
+  OrderedArrival = FALSE
 INVARIANT TypeOK
 INVARIANT Inside
 INVARIANT RegularName
